@@ -18,7 +18,7 @@ echo "--- demo without patch"; out0=$(run); echo "$out0" | tail -1
 rm "$pkg/zz_seed_demo_test.go"
 git apply "$src/patch.diff" || { echo "patch failed"; exit 2; }
 echo "--- build with patch"; go build ./... 2>&1 | tail -2; b=$?
-echo "--- existing tests with patch"; out1=$(go test -vet=off -count=1 ./$pkg/... "$@" 2>&1 | tail -4); echo "$out1" | tail -2
+echo "--- existing tests with patch"; out1=$(go test -vet=off -count=1 -skip "${SKIP:-^NoSuchTest$}" ./$pkg/... "$@" 2>&1 | tail -4); echo "$out1" | tail -2
 cp "$demo" "$pkg/zz_seed_demo_test.go"
 echo "--- demo with patch"; out2=$(run); echo "$out2" | tail -1
 git checkout -q -- . ; git clean -fdq
